@@ -1266,6 +1266,13 @@ func checkRequiredFieldsIndependent(c *Ctx, rule string) {
 			continue
 		}
 		for _, rs := range sites {
+			if rs.tbl {
+				// a table row: added when its condition is constantly true (or it has none)
+				if rs.cond == nil || rs.alwaysRow(nil) {
+					want[name] = true
+				}
+				continue
+			}
 			// unconditional: every path through the function passes it
 			if r, _ := reach(entrySite(rs.fn), isReturn, newCuts().addInstr(rs.at)); !r {
 				want[name] = true
@@ -1283,6 +1290,21 @@ func checkRequiredFieldsIndependent(c *Ctx, rule string) {
 type reqSite struct {
 	fn *ssa.Function
 	at ssa.Instruction
+	// table form (`for _, f := range required { if f.needed { add(f.name, f.typ) } }`): the row's
+	// condition – a boolean, or a predicate function – that guards the shared add call (nil: none)
+	tbl  bool
+	cond ssa.Value
+}
+
+// alwaysRow: a table row whose condition is constantly true and whose add call depends on nothing else.
+func (rs reqSite) alwaysRow(guard ssa.Value) bool {
+	for _, lf := range rowCondLeaves(rs.cond) {
+		k, ok := lf.(*ssa.Const)
+		if !ok || k.Value == nil || k.Value.String() != "true" {
+			return false
+		}
+	}
+	return rs.cond != nil
 }
 
 func requiredFieldSites(res *Resolver, arf *ssa.Function) map[string][]reqSite {
@@ -1303,8 +1325,8 @@ func requiredFieldSites(res *Resolver, arf *ssa.Function) map[string][]reqSite {
 				continue
 			}
 			if s, ok := constString(ci.Common().Args[0]); ok {
-				out[s] = append(out[s], reqSite{f, ci})
-			} else {
+				out[s] = append(out[s], reqSite{fn: f, at: ci})
+			} else if !tableSites(f, ci, out) {
 				dataForm = true
 			}
 		}
@@ -1331,10 +1353,74 @@ func requiredFieldSites(res *Resolver, arf *ssa.Function) map[string][]reqSite {
 			if !isFA || fa.Field != 0 {
 				return
 			}
-			out[name] = append(out[name], reqSite{h, st})
+			out[name] = append(out[name], reqSite{fn: h, at: st})
 		})
 	}
 	return out
+}
+
+// tableSites: ci = add(row.name, …) inside a loop over a table of (name, …, condition) rows: one site
+// per row, carrying the row's condition when the call is guarded by it and by nothing else.
+func tableSites(f *ssa.Function, ci ssa.CallInstruction, out map[string][]reqSite) bool {
+	rows, elems, ok := rangedTable(currentWorld, f)
+	if !ok {
+		return false
+	}
+	kName, ok := elemField(ci.Common().Args[0], elems)
+	if !ok {
+		return false
+	}
+	// the guard: a boolean member of the row, or a call of a function member of the row
+	kCond := -1
+	var guard ssa.Value
+	allInstrs(f, func(in ssa.Instruction) {
+		v, isV := in.(ssa.Value)
+		if !isV || guard != nil || !isBoolType(v.Type()) {
+			return
+		}
+		k := -1
+		if call, isCall := in.(*ssa.Call); isCall && staticCallee(call) == nil && !call.Call.IsInvoke() {
+			if kk, ok := elemField(call.Call.Value, elems); ok {
+				k = kk
+			}
+		} else if kk, ok := elemField(v, elems); ok {
+			k = kk
+		}
+		if k < 0 {
+			return
+		}
+		if t, _ := boolEdges(v); len(t) > 0 && guardedByEdges(f, ci, t) {
+			kCond, guard = k, v
+		}
+	})
+	// nothing else decides whether the call runs
+	for _, b := range f.Blocks {
+		iff, isIf := terminator(b).(*ssa.If)
+		if !isIf || b == ci.Block() || !b.Dominates(ci.Block()) {
+			continue
+		}
+		if allowedGuard(iff.Cond) || (guard != nil && iff.Cond == guard) {
+			continue
+		}
+		if b.Succs[0].Dominates(ci.Block()) != b.Succs[1].Dominates(ci.Block()) {
+			return false
+		}
+	}
+	for _, r := range rows {
+		name, isStr := constString(r[kName])
+		if !isStr {
+			return false
+		}
+		rs := reqSite{fn: f, at: ci, tbl: true}
+		if kCond >= 0 {
+			rs.cond = r[kCond]
+			if rs.cond == nil {
+				return false
+			}
+		}
+		out[name] = append(out[name], rs)
+	}
+	return len(rows) > 0
 }
 
 // checkCachePerRoutine: each segment cache of the client is filled by exactly
